@@ -27,6 +27,7 @@ Core Lean only.
 import IsoVerif.Gen.Strategies
 import IsoVerif.Gen.SharedState
 import IsoVerif.Gen.SampleState
+import IsoVerif.Gen.SampleNames
 
 namespace IsoVerif.Model.C10
 open IsoVerif.Gen
@@ -479,13 +480,38 @@ def labelled (fs : List InFile) : Option (List String) → Option (List (String 
   | none => some (fs.map (fun f => (f.path, f.stem)))
   | some ls => if ls.length != fs.length then none else some ((fs.map InFile.path).zip ls)
 
+/-- Which test the parser applies before it renames a duplicate experiment name to `<prefix><position>`
+    (`new_sample_name`), once the name was found in `experiment_names`:
+    * `recheck = false` – `if current_sample_name == new_sample_name: exit(-1)` (the tree before the repair of audit
+      finding G4: the generated name is compared with the duplicate only);
+    * `recheck = true`  – `if new_sample_name in experiment_names: exit(-1)` (the generated name must be free; this
+      includes the equality, because the duplicate itself is in `experiment_names`).
+    `renameRuleOfSource` reads, per parser, which of the two the current source has (`Gen.rename_exit_test`). -/
+def renameBlocked (recheck : Bool) (names : List String) (nm0 auto : String) : Bool :=
+  if recheck then names.contains auto else nm0 == auto
+
+/-- (YAML parser, list-file parser) -/
+structure RenameRule where
+  yaml : Bool
+  list : Bool
+  deriving DecidableEq, Repr
+
+def renameRuleOfSource : RenameRule :=
+  ⟨Gen.rename_exit_test.lookup "get_samples_from_yaml" == some "taken",
+   Gen.rename_exit_test.lookup "get_samples_from_file" == some "taken"⟩
+
+/-- the repaired tree -/
+def renameRuleFixed : RenameRule := ⟨true, true⟩
+/-- the tree before the repair (audit finding G4) -/
+def renameRuleOrig : RenameRule := ⟨false, false⟩
+
 /-- one iteration of `for sample in con[1:]`; `none` = the parser exits with an error -/
-def yamlStep (pfx : String) (st : ParseSt) (e : YamlEntry) : Option ParseSt :=
+def yamlStepR (rc : Bool) (pfx : String) (st : ParseSt) (e : YamlEntry) : Option ParseSt :=
   let auto := pfx ++ toString st.index
   let nm0 := match e.name with
     | some n => n
     | none => auto
-  if st.names.contains nm0 && nm0 == auto then none                       -- "Change experiment name … and rerun"
+  if st.names.contains nm0 && renameBlocked rc st.names nm0 auto then none  -- "Change experiment name … and rerun"
   else
     let nm := if st.names.contains nm0 then auto else nm0                 -- duplicate folder prefix: renamed
     match e.files with
@@ -501,20 +527,28 @@ def yamlStep (pfx : String) (st : ParseSt) (e : YamlEntry) : Option ParseSt :=
           else some { names := st.names ++ [nm], index := st.index + 1, dict := dictSet st.dict nm d',
                       acc := st.acc ++ [(nm, fs.map (fun f => [f.path]), e.illumina)] }
 
-def yamlLoop (pfx : String) : ParseSt → List YamlEntry → Option ParseSt
+def yamlLoopR (rc : Bool) (pfx : String) : ParseSt → List YamlEntry → Option ParseSt
   | st, [] => some st
   | st, e :: es =>
-    match yamlStep pfx st e with
+    match yamlStepR rc pfx st e with
     | none => none
-    | some st' => yamlLoop pfx st' es
+    | some st' => yamlLoopR rc pfx st' es
 
 /-- `InputDataStorage.__init__`: one `SampleData` per parsed experiment, labels looked up by the final name -/
 def finishParse (st : ParseSt) : List ParsedSample :=
   st.acc.map (fun t => ⟨t.1, t.2.1, dictGet st.dict t.1, t.2.2⟩)
 
-/-- `get_samples_from_yaml` (+ the construction of the samples) -/
+/-- `get_samples_from_yaml` (+ the construction of the samples) under a given rename test -/
+def parseYamlR (rc : Bool) (pfx : String) (entries : List YamlEntry) : Option (List ParsedSample) :=
+  (yamlLoopR rc pfx ParseSt.init entries).map finishParse
+
+/-- `get_samples_from_yaml` of the current source -/
 def parseYaml (pfx : String) (entries : List YamlEntry) : Option (List ParsedSample) :=
-  (yamlLoop pfx ParseSt.init entries).map finishParse
+  parseYamlR renameRuleOfSource.yaml pfx entries
+
+/-- … of the tree before the repair of G4 -/
+def parseYamlOrig (pfx : String) (entries : List YamlEntry) : Option (List ParsedSample) :=
+  parseYamlR false pfx entries
 
 /-- what an entry with the explicit name `n` yields *by itself*: `none` = error, `some none` = no files (skipped) -/
 def parseOwnYaml (e : YamlEntry) (n : String) : Option (Option ParsedSample) :=
@@ -565,12 +599,12 @@ def lineLabel (fs : List InFile) : Option String → String
     | some f => f.stem
     | none => ""
 
-def listStep (pfx : String) (s : ListSt) : ListLine → Option ListSt
+def listStepR (rc : Bool) (pfx : String) (s : ListSt) : ListLine → Option ListSt
   | .header nm =>
     let st := s.flush
     let auto := pfx ++ toString st.index
     let nm0 := if nm.isEmpty then auto else nm
-    if st.names.contains nm0 && nm0 == auto then none
+    if st.names.contains nm0 && renameBlocked rc st.names nm0 auto then none
     else
       let nm1 := if st.names.contains nm0 then auto else nm0
       some { st := { st with index := st.index + 1 }, cur := [], curName := nm1 }
@@ -580,17 +614,25 @@ def listStep (pfx : String) (s : ListSt) : ListLine → Option ListSt
     | some d' => some { s with st := { s.st with dict := dictSet s.st.dict s.curName d' },
                                cur := s.cur ++ [fs.map InFile.path] }
 
-def listLoop (pfx : String) : ListSt → List ListLine → Option ListSt
+def listLoopR (rc : Bool) (pfx : String) : ListSt → List ListLine → Option ListSt
   | s, [] => some s
   | s, l :: ls =>
-    match listStep pfx s l with
+    match listStepR rc pfx s l with
     | none => none
-    | some s' => listLoop pfx s' ls
+    | some s' => listLoopR rc pfx s' ls
 
 /-- `get_samples_from_file` (+ the construction of the samples); the first sample is called `pfx` unless the
     file starts with a header line -/
+def parseListR (rc : Bool) (pfx : String) (lines : List ListLine) : Option (List ParsedSample) :=
+  (listLoopR rc pfx ⟨ParseSt.init, [], pfx⟩ lines).map (fun s => finishParse s.flush)
+
+/-- `get_samples_from_file` of the current source -/
 def parseList (pfx : String) (lines : List ListLine) : Option (List ParsedSample) :=
-  (listLoop pfx ⟨ParseSt.init, [], pfx⟩ lines).map (fun s => finishParse s.flush)
+  parseListR renameRuleOfSource.list pfx lines
+
+/-- … of the tree before the repair of G4 -/
+def parseListOrig (pfx : String) (lines : List ListLine) : Option (List ParsedSample) :=
+  parseListR false pfx lines
 
 def ListLine.isFiles : ListLine → Bool
   | .files _ _ => true
